@@ -198,6 +198,7 @@ type Server struct {
 	aofsz     int         // active size of the aof file
 	shrinking bool        // aof shrinking flag
 	shrinklog [][]string  // aof shrinking log
+	shrinkrst bool        // the dataset was reset while shrinking (follow)
 
 	// database
 	qdb  *buntdb.DB // hook queue log
